@@ -13,20 +13,9 @@ use embedded_cli::writer::Writer;
 use crate::sink::{SimErr, Sink};
 use crate::trace::{HScript, Ret, WCall, WKind, PROMPTS};
 
-/// Command / history buffer with a size chosen at run time
-#[derive(Debug)]
-pub struct VBuf(pub Vec<u8>);
-
-impl embedded_cli::buffer::Buffer for VBuf {
-    fn as_slice(&self) -> &[u8] {
-        &self.0
-    }
-    fn as_slice_mut(&mut self) -> &mut [u8] {
-        &mut self.0
-    }
-}
-
-pub type SimCli = Cli<Sink, SimErr, VBuf, VBuf>;
+/// Command and history buffers are `&mut [u8]` slices of a size chosen at run time,
+/// i.e. the library's own `impl Buffer for &mut [u8]` is what runs
+pub type SimCli<'b> = Cli<Sink, SimErr, &'b mut [u8], &'b mut [u8]>;
 
 /// Argument as received by the handler. Strings are kept as raw bytes: the
 /// harness validates UTF-8 itself (C02).
@@ -82,6 +71,8 @@ pub struct Dispatch {
     pub parsed: Option<Result<String, ObsParseError>>,
     /// Did the handler return the parse error to the library?
     pub returned_parse_error: bool,
+    /// Came through the derive-generated `processor()`: only the typed command is seen
+    pub typed: bool,
 }
 
 impl Dispatch {
@@ -151,6 +142,7 @@ impl App {
                 .collect(),
             parsed: None,
             returned_parse_error: false,
+            typed: false,
         };
         // The derived parser is only run on well-formed input: handing ill-formed
         // strings to Debug formatting would be the harness misbehaving.
@@ -189,6 +181,63 @@ impl App {
         };
         self.log.push(d);
         out
+    }
+}
+
+impl App {
+    /// Handler body behind the `processor()` generated by the derive macro: the library
+    /// has already parsed the command (and reports parse errors itself)
+    pub fn handle_typed(&mut self, cli: &mut CliHandle<'_, Sink, SimErr>, dbg: String) -> Result<(), SimErr> {
+        self.total_dispatches += 1;
+        let d = Dispatch {
+            name: Vec::new(),
+            args: Vec::new(),
+            parsed: Some(Ok(dbg)),
+            returned_parse_error: false,
+            typed: true,
+        };
+        self.finish_typed(cli, d)
+    }
+
+    /// Handler body behind `RawCommand::processor`
+    pub fn handle_raw_processor(&mut self, cli: &mut CliHandle<'_, Sink, SimErr>, raw: RawCommand<'_>) -> Result<(), SimErr> {
+        self.total_dispatches += 1;
+        let d = Dispatch {
+            name: raw.name().as_bytes().to_vec(),
+            args: raw
+                .args()
+                .args()
+                .map(|a| match a {
+                    CliArg::DoubleDash => ObsArg::DoubleDash,
+                    CliArg::LongOption(n) => ObsArg::Long(n.as_bytes().to_vec()),
+                    CliArg::ShortOption(c) => ObsArg::Short(c as u32),
+                    CliArg::Value(v) => ObsArg::Value(v.as_bytes().to_vec()),
+                })
+                .collect(),
+            parsed: None,
+            returned_parse_error: false,
+            typed: false,
+        };
+        self.finish_typed(cli, d)
+    }
+
+    fn finish_typed(&mut self, cli: &mut CliHandle<'_, Sink, SimErr>, d: Dispatch) -> Result<(), SimErr> {
+        let script = self.script.clone();
+        let res = run_calls(cli.writer(), &script.calls, &self.sink, &mut self.handler_text);
+        if let Err(e) = res {
+            self.handler_calls_ok = false;
+            self.log.push(d);
+            return Err(e);
+        }
+        if let Some(p) = script.prompt {
+            cli.set_prompt(PROMPTS[p]);
+            self.handler_set_prompt = Some(p);
+        }
+        self.log.push(d);
+        match script.ret {
+            Ret::Ok | Ret::Parse => Ok(()),
+            Ret::AppErr => Err(self.sink.0.borrow_mut().make_app_err()),
+        }
     }
 }
 
@@ -269,7 +318,7 @@ impl<'x, D: SetDef> CommandProcessor<Sink, SimErr> for Proc<'x, D> {
     }
 }
 
-pub fn step_with<D: SetDef>(cli: &mut SimCli, b: u8, app: &mut App) -> Result<(), SimErr> {
+pub fn step_with<D: SetDef>(cli: &mut SimCli<'_>, b: u8, app: &mut App) -> Result<(), SimErr> {
     let mut p = Proc::<D> {
         app,
         _ph: PhantomData,
@@ -287,6 +336,12 @@ pub struct SetMeta {
     pub grouped: bool,
     /// Lines worth typing with this set (valid, each parse error kind, help forms)
     pub lines: &'static [&'static str],
+}
+
+/// Set 0 through `RawCommand::processor`
+pub fn step_raw_processor(cli: &mut SimCli<'_>, b: u8, app: &mut App) -> Result<(), SimErr> {
+    let mut p = RawCommand::processor(|h: &mut CliHandle<'_, Sink, SimErr>, raw: RawCommand<'_>| app.handle_raw_processor(h, raw));
+    cli.process_byte::<RawCommand<'_>, _>(b, &mut p)
 }
 
 /// Set 0: no derive at all
